@@ -30,6 +30,7 @@ type Engine struct {
 	LoadSecs float64
 	implMemo map[string]*ssa.Function
 	named    []*types.Named
+	frames   *Frames
 }
 
 func RepoDir() string {
@@ -98,6 +99,7 @@ func Load(patterns ...string) (*Engine, error) {
 	e.Env = &sym.Env{Cfg: cfgS, Specs: specs}
 	cfgS.EnvRef = e.Env
 	cfgS.Resolver = e.resolveImpl
+	cfgS.IfaceFrame = func(it types.Type, m string) ([]string, int) { return e.Frames().MayWriteIface(it, m) }
 	for _, p := range prog.AllPackages() {
 		if !strings.HasPrefix(p.Pkg.Path(), ElysMod) {
 			continue
